@@ -220,8 +220,15 @@ class BaseFeatureWriter:
                 else:
                     index = statements.index(block) + 1
                     # Split statements after the insertFeatureMarker into a new block
-                    afterBlock = ast.FeatureBlock(block.name)
-                    afterBlock.statements = block.statements[markerIndex:]
+                    afterBlock = ast.FeatureBlock(
+                        block.name, use_extension=block.use_extension
+                    )
+                    # the rules after the marker stay under the script, language and
+                    # lookup flag that were in effect where the user wrote them
+                    afterBlock.statements = (
+                        self._contextAt(block.statements[:markerIndex])
+                        + block.statements[markerIndex:]
+                    )
                     statements.insert(index, afterBlock)
                     # And remove them from the original block
                     block.statements = block.statements[:markerIndex]
@@ -263,6 +270,21 @@ class BaseFeatureWriter:
                 others.append(ast.Comment(""))
 
         feaFile.statements = statements = others + statements
+
+    @staticmethod
+    def _contextAt(statements):
+        """Return the script, language and lookupflag statements in effect after
+        the given statements of a feature block (a script statement resets the
+        language and the lookup flag)."""
+        script = language = lookupflag = None
+        for statement in statements:
+            if isinstance(statement, ast.ScriptStatement):
+                script, language, lookupflag = statement, None, None
+            elif isinstance(statement, ast.LanguageStatement):
+                language = statement
+            elif isinstance(statement, ast.LookupFlagStatement):
+                lookupflag = statement
+        return [s for s in (script, language, lookupflag) if s is not None]
 
     @staticmethod
     def collectInsertMarkers(feaFile, insertFeatureMarker, featureTags):
